@@ -33,7 +33,8 @@ class Potentiometer:
         if self._value_provider is None:
             value = 0
         else:
-            value = int(self._value_provider())
+            value = self._value_provider()
+        # validate before truncating: -0.5 or 1023.5 are outside the range
         if value < 0 or value > 1023:
             raise ValueError("potentiometer value must be between 0 and 1023")
         return int(value)
